@@ -52,6 +52,7 @@ type shadow struct {
 	acked    uint64 // highest index acknowledged with success on the wire
 	reported uint64 // highest term reported on the wire
 	truncFloor uint64
+	xferPrev, xferNow bool // transfer in progress at the previous / this observation
 }
 
 func newShadow() *shadow { return &shadow{terms: map[uint64]uint64{}} }
@@ -82,6 +83,7 @@ type ledgers struct {
 	persisted    map[uint64]map[[2]uint64]bool // nid -> (term, vote) pairs seen durable on its disk
 	connTerm     map[int]uint64
 	reportedTerm map[uint64]uint64 // nid -> highest term it put on the wire in a response or vote request
+	rounds       map[[3]uint64]uint64 // (leader, term, node) -> highest target index of a completed round
 	floor        map[uint64]uint64 // nid -> highest index it must still hold after a crash
 	ackedIdx     map[uint64]uint64 // nid -> highest index acknowledged with success (across incarnations)
 }
@@ -102,6 +104,7 @@ func newLedgers(c *cluster) *ledgers {
 		persisted: map[uint64]map[[2]uint64]bool{},
 		ackedIdx: map[uint64]uint64{},
 		floor: map[uint64]uint64{},
+		rounds: map[[3]uint64]uint64{},
 	}
 }
 
@@ -222,7 +225,11 @@ func (c *cluster) observe() {
 	for i := range evs {
 		e := &evs[i]
 		if c.traceOn {
-			c.tracef("  ev %s n%d#%d term=%d state=%c leader=%d commit=%d a=%d b=%d %s", e.kind, e.nid, e.inc, e.term, e.state, e.leader, e.commit, e.a, e.b, e.s)
+			extra := ""
+			if e.kind == "configChanged" || e.kind == "configAction" {
+				extra = fmt.Sprintf(" latest=%v committed=%v", e.cfg.Latest, e.cfg.Committed)
+			}
+			c.tracef("  ev %s n%d#%d term=%d state=%c leader=%d commit=%d a=%d b=%d %s%s", e.kind, e.nid, e.inc, e.term, e.state, e.leader, e.commit, e.a, e.b, e.s, extra)
 		}
 		if e.dead {
 			continue
@@ -262,6 +269,12 @@ func (c *cluster) observe() {
 			if e.s == "not voter" || e.s == "not part of cluster" {
 				c.stats.class("nonvoter-timeout")
 			}
+		case "round":
+			key := [3]uint64{e.nid, e.term, e.a}
+			if e.b > l.rounds[key] || l.rounds[key] == 0 {
+				l.rounds[key] = e.b
+			}
+			c.stats.class("round-completed")
 		case "compacted":
 			c.stats.class("compaction")
 		case "crashedAt":
@@ -284,6 +297,7 @@ func (c *cluster) observe() {
 		}
 		c.observeNode(n)
 	}
+	c.checkTimeoutNows()
 	// pass 3: things that need the commit ledger of this step
 	for i := range evs {
 		e := &evs[i]
@@ -408,6 +422,14 @@ func (c *cluster) observeNode(n *simNode) {
 		sh.commit = r.commitIndex
 	}
 	sh.term, sh.state, sh.snap = term, state, snapIdx
+	if state == Leader && r.configs.IsCommitted() && !r.configs.Latest.isVoter(n.id) {
+		c.fail("nonvoter-authority", "nonvoter-still-leader", "node %d is still leader of term %d although the committed configuration %v does not list it as voter", n.id, term, r.configs.Latest)
+	}
+	sh.xferPrev = sh.xferNow
+	sh.xferNow = state == Leader && r.ldr != nil && r.ldr.transfer.inProgress()
+	if sh.xferNow {
+		c.stats.class("transfer-in-progress-observed")
+	}
 	if state == Leader {
 		sh.wasLeaderTerm = term
 		if ld, ok := l.leaderOf[term]; ok && ld != n.id {
@@ -611,6 +633,22 @@ func (c *cluster) onConfigChanged(e *event) {
 	}
 	if e.state == Leader {
 		c.stats.class("leader-config-change")
+		// promotions: the node must have completed a round under this leader
+		for id, nn := range newC.Nodes {
+			on, had := oldC.Nodes[id]
+			if had && !on.Voter && nn.Voter {
+				c.stats.class("promotion")
+				key := [3]uint64{e.nid, e.term, id}
+				target, ok := c.led.rounds[key]
+				if !ok {
+					c.fail("nonvoter-authority", "promotion-without-round", "leader %d (term %d) promoted node %d although no catch-up round of that node completed under this leader", e.nid, e.term, id)
+					continue
+				}
+				if p := c.up(id); p != nil && p.sh != nil && p.sh.last < target && p.r.lastLogIndex < target {
+					c.fail("nonvoter-authority", "promotion-not-caught-up", "leader %d (term %d) promoted node %d whose log ends at %d, round target was %d", e.nid, e.term, id, p.r.lastLogIndex, target)
+				}
+			}
+		}
 		if oldC.Index > e.commit {
 			c.fail("config-safety", "config-before-prev-committed", "leader %d (term %d) appended configuration %d while previous configuration %d is not committed (commit index %d)", e.nid, e.term, newC.Index, oldC.Index, e.commit)
 		}
@@ -793,3 +831,5 @@ func (l *ledgers) lowerFloor(nid, idx uint64) {
 	}
 	l.c.evMu.Unlock()
 }
+
+func (c *cluster) checkTimeoutNows() {}
